@@ -818,3 +818,97 @@ func (g *gen) document() (doc *gnode, layout string) {
 func newGen(r *hx.Rng, budget int) *gen {
 	return &gen{r: r, budget: budget, feat: map[string]bool{}}
 }
+
+// ---- elements that share a class value -------------------------------------------
+
+// neutralClasses are ordinary styling names: no word of the exclusion vocabulary
+// occurs in them (between non-letters or otherwise), so by the property text an
+// element is never navigation BECAUSE of such a class. Pages repeat them on many
+// elements (cards, rows, entries) that differ in id, role and content.
+var neutralClasses = []string{"panel", "card", "row", "entry", "box", "col-md-4", "post teaser", "Card", "grid-cell",
+	"lead", "item", "clearfix wide", "text-muted", "js-toggle", "story"}
+
+var neutralClass = func() map[string]bool {
+	m := map[string]bool{}
+	for _, s := range neutralClasses {
+		m[s] = true
+	}
+	return m
+}()
+
+func (n *gnode) hasAttr(k string) bool {
+	for _, a := range n.attrs {
+		if a[0] == k {
+			return true
+		}
+	}
+	return false
+}
+
+// shareClasses is a pass over the finished logical document: it picks one to
+// three neutral class values and puts each on several elements (a family) in
+// document order; members of a family then differ in what else identifies them:
+// an id from or near the exclusion vocabulary, a role, or nothing. Whether one
+// member is navigation must not depend on the other members of its family.
+// It draws from a generator of its own, so the shape of the document is the
+// one genCase built before.
+func (g *gen) shareClasses(doc *gnode, r *hx.Rng) {
+	var cands []*gnode
+	var walk func(n *gnode)
+	walk = func(n *gnode) {
+		switch n.tag {
+		case "", "#comment", "head", "script", "style", "noscript", "template", "svg", "col", "colgroup", "br":
+			return
+		case "html", "body":
+		default:
+			if !n.hasAttr("class") {
+				cands = append(cands, n)
+			}
+		}
+		for _, k := range n.kids {
+			walk(k)
+		}
+	}
+	walk(doc)
+	if len(cands) < 2 {
+		return
+	}
+	saved := g.r
+	g.r = r
+	defer func() { g.r = saved }()
+	used := map[*gnode]bool{}
+	for fam := r.Range(1, 3); fam > 0; fam-- {
+		class := hx.Pick(r, neutralClasses)
+		size := r.Range(2, 6)
+		// members: a random subset, kept in document order
+		pick := map[int]bool{}
+		for i := 0; i < size; i++ {
+			pick[r.Intn(len(cands))] = true
+		}
+		first := true
+		for i, n := range cands {
+			if !pick[i] || used[n] {
+				continue
+			}
+			used[n] = true
+			n.attr("class", class)
+			g.f("shared-class")
+			k := r.Intn(10)
+			if first && r.Bool() {
+				k = 0 // the family often starts with the member that carries a vocabulary id
+			}
+			first = false
+			switch {
+			case k < 3 && !n.hasAttr("id"):
+				n.attr("id", fmt.Sprintf(hx.Pick(r, decor[:8]), hx.Pick(r, vocab)))
+				g.f("shared-class-vocab-id")
+			case k < 5 && !n.hasAttr("id"):
+				n.attr("id", g.navName())
+				g.f("shared-class-some-id")
+			case k == 5 && !n.hasAttr("role"):
+				n.attr("role", hx.Pick(r, append(append([]string{}, roles...), nearRoles...)))
+				g.f("shared-class-role")
+			}
+		}
+	}
+}
